@@ -99,7 +99,7 @@ func (h *Handler) HandleMessage(msg stanza.Message, t xmlstream.TokenReadEncoder
 	if err != nil {
 		return err
 	}
-	return handlePayload(h, msg, p.Data, t)
+	return handlePayload(h, msg, msg.From, p.Data, t)
 }
 
 // HandleIQ implements mux.IQHandler.
@@ -123,7 +123,7 @@ func (h *Handler) HandleIQ(iq stanza.IQ, t xmlstream.TokenReadEncoder, start *xm
 		h.mu.Lock()
 		conn, ok := h.streams[sid]
 		h.mu.Unlock()
-		if !ok {
+		if !ok || !conn.fromPeer(iq.From) {
 			_, err := xmlstream.Copy(t, iq.Error(stanza.Error{
 				Type:      stanza.Cancel,
 				Condition: stanza.ItemNotFound,
@@ -151,7 +151,7 @@ func (h *Handler) HandleIQ(iq stanza.IQ, t xmlstream.TokenReadEncoder, start *xm
 		if err != nil {
 			return err
 		}
-		return handlePayload(h, iq, p, t)
+		return handlePayload(h, iq, iq.From, p, t)
 	}
 
 	// We understand that this is an IBB payload, but did not recognize the
@@ -217,11 +217,14 @@ type errorResponder interface {
 	Error(stanza.Error) xml.TokenReader
 }
 
-func handlePayload(h *Handler, errResp errorResponder, p dataPayload, e xmlstream.Encoder) error {
+func handlePayload(h *Handler, errResp errorResponder, from jid.JID, p dataPayload, e xmlstream.Encoder) error {
 	h.mu.Lock()
 	conn, ok := h.streams[p.SID]
 	h.mu.Unlock()
-	if !ok {
+	// A stream is identified by the session ID together with the entity it was
+	// opened with: a packet that names the session ID of somebody else's stream
+	// is a packet for a stream that does not exist.
+	if !ok || !conn.fromPeer(from) {
 		_, err := xmlstream.Copy(e, errResp.Error(stanza.Error{
 			Type:      stanza.Cancel,
 			Condition: stanza.ItemNotFound,
